@@ -59,6 +59,7 @@ func (c *checker) generatedKeyDocs(dir string, years []int) {
 		return
 	}
 	c.byRef[k.ref] = k
+	c.genKey = k
 
 	// an armored ring: test key 1, the generated key, test key 2
 	var el openpgp.EntityList
